@@ -169,7 +169,14 @@ impl ByteCompiler<'_> {
                                 let index = compiler.get_or_insert_string(name);
                                 compiler.bytecode.emit_throw_mutate_immutable(index.into());
                             }
-                            Err(BindingLocatorError::Silent) => {}
+                            Err(BindingLocatorError::Silent) => {
+                                // An immutable binding of sloppy code (the name of a function expression)
+                                // assigned from strict code: a TypeError.
+                                if compiler.strict() {
+                                    let index = compiler.get_or_insert_string(name);
+                                    compiler.bytecode.emit_throw_mutate_immutable(index.into());
+                                }
+                            }
                         }
                     } else {
                         compiler.emit_binding_access(
